@@ -81,6 +81,13 @@ CbSigs ==
   \cup {Sg(K("opq"), <<SliceT("u8", "imm"), StructT("WOpt"), CbT(<<EnumT>>, EnumT), CbT(<<>>, P("u8")), StructT("Wide")>>, FALSE, P("i64"))}
   \cup {Sg(K("opq"), <<P("u64"), P("u64"), P("u64"), P("u64"), P("u64"), P("u64"), CbT(<<P("u64")>>, P("u64")), P("u64")>>, FALSE, P("u64"))}
 \* native signature of run_callback: the data pointer first, then the arguments in order
+\* lists of strings (`&[DiplomatStrSlice]`, `&[DiplomatStr16Slice]`, `&[DiplomatUtf8StrSlice]`) and their optional form: a view of views; the
+\* C name of the optional record depends on the encoding (OptionStringsView / OptionStrings16View)
+StrsT(enc) == [k |-> "strs", enc |-> enc]
+StrsSigs ==
+  {Sg(K("opq"), <<StrsT(e), P("u16")>>, FALSE, P("u32")) : e \in {"u8", "u16", "utf8"}}
+  \cup {Sg(K("opq"), <<OptT("std", StrsT(e)), P("u16")>>, FALSE, UnitT) : e \in {"u8", "u16"}}
+  \cup {Sg(K("none"), <<StrsT("u16"), StrsT("u8")>>, FALSE, P("bool"))}
 \* traits (supported by the C backend): named, with 1..3 methods; each method crosses like a callback's run function
 TraitT(n, ms) == [k |-> "trait", n |-> n, ms |-> ms]
 TraitTypes == {TraitT("TrA", <<CbT(<<P("u8")>>, P("u8"))>>),
@@ -101,6 +108,7 @@ Init == IF Mode = "cover" THEN sig \in CoverSigs /\ stage = "done"
         ELSE IF Mode = "optenc" THEN sig \in OptEncSigs /\ stage = "done"
         ELSE IF Mode = "cb" THEN sig \in CbSigs /\ stage = "done"
         ELSE IF Mode = "trait" THEN sig \in TraitSigs /\ stage = "done"
+        ELSE IF Mode = "strs" THEN sig \in StrsSigs /\ stage = "done"
         ELSE sig = Sg(K("none"), <<>>, FALSE, UnitT) /\ stage = "self"
 PickSelf == stage = "self" /\ \E sf \in SelfKinds : sig' = [sig EXCEPT !.self = sf] /\ stage' = "params"
 \* random combinations may also place a callback anywhere in the parameter list
